@@ -58,8 +58,21 @@ Theorem c15_weyl_tt0 : forall t,
   kappaR (kak_coeffsR t t 0) = 1 + 4 * Rabs (sin (2 * t)) + 2 * (sin (2 * t) * sin (2 * t)).
 Proof. exact kappa_weyl_tt0. Qed.
 
+(* the kappa of the KAK path is the same for every representative of a local-equivalence class that the
+   Weyl decomposition may return: transposing two coordinates, negating one, shifting one by pi/2
+   (these generate all permutations, all sign changes and all shifts by multiples of pi/2) *)
+Theorem c15_weyl_symmetry : forall a b c,
+  kappaR (kak_coeffsR b a c) = kappaR (kak_coeffsR a b c) /\
+  kappaR (kak_coeffsR a c b) = kappaR (kak_coeffsR a b c) /\
+  kappaR (kak_coeffsR (- a) b c) = kappaR (kak_coeffsR a b c) /\
+  kappaR (kak_coeffsR (a + PI / 2) b c) = kappaR (kak_coeffsR a b c).
+Proof. exact kappa_weyl_symmetry. Qed.
+
 (* the coefficient list of the KAK path depends on what the Weyl decomposition returned only
-   through (a, b, c): local factors K1l, K1r, K2l, K2r and the global phase never enter *)
+   through (a, b, c): local factors K1l, K1r, K2l, K2r and the global phase never enter.
+   (True BY CONSTRUCTION of the model, whose KAK coefficient function has no such argument; the tie to
+   the source is the extracted statement `u = _u_from_thetavec([d.a, d.b, d.c])` in c15_facts_source and
+   the conj/twin streams.  The content about local equivalence is c15_weyl_symmetry and c15_kak_doc_angles.) *)
 Theorem c15_local_invariance : forall (L : Type) (d d' : weyl L),
   w_a d = w_a d' -> w_b d = w_b d' -> w_c d = w_c d' ->
   kak_basis_coeffsR d = kak_basis_coeffsR d'.
@@ -226,6 +239,7 @@ Print Assumptions c15_u_from_thetavec.
 Print Assumptions c15_weyl.
 Print Assumptions c15_weyl_t00.
 Print Assumptions c15_weyl_tt0.
+Print Assumptions c15_weyl_symmetry.
 Print Assumptions c15_local_invariance.
 Print Assumptions c15_kak_doc_angles.
 Print Assumptions c15_ge_1.
